@@ -89,6 +89,8 @@ func parseOp(c px.Context, text string) core.Result {
 		return fail(out, "parse-fault", text, o.Msg, tags)
 	case "timeout":
 		return fail(out, "timeout", text, "types.Parse did not return within the deadline", tags)
+	case "skipped":
+		return core.Result{Out: out, Pred: "n/a", Tags: []string{"skipped-after-timeouts"}}
 	default:
 		return fail(out, "parse-"+o.Kind, text, o.Msg, tags)
 	}
@@ -96,7 +98,7 @@ func parseOp(c px.Context, text string) core.Result {
 }
 
 func fail(out, class, text, detail string, tags []string) core.Result {
-	r := core.Fail(out, class, fmt.Sprintf("%q: %s", text, detail))
+	r := core.Fail(out, class, syn.Clean(fmt.Sprintf("%q: %s", text, detail)))
 	r.Tags = tags
 	return r
 }
